@@ -204,11 +204,12 @@ def one(case, pl):
         del log[:]
         try:
             kk = float(k) if (k is not None and case.get("cutoff_float")) else k
-            r = mdp.reachable_states() if k is None else mdp.reachable_states(max_states=kk)
+            pos = bool(case.get("cutoff_positional"))
+            r = mdp.reachable_states() if k is None else (mdp.reachable_states(kk) if pos else mdp.reachable_states(max_states=kk))
             run = {"max": k, "result": sorted(sid[s] for s in r), "size": len(r), "trace": list(log),
                    "type": type(r).__name__}
             # second call with the same argument (cache hit) must give the same set
-            r2 = mdp.reachable_states() if k is None else mdp.reachable_states(max_states=kk)
+            r2 = mdp.reachable_states() if k is None else (mdp.reachable_states(kk) if pos else mdp.reachable_states(max_states=kk))
             run["again"] = sorted(sid[s] for s in r2)
             runs.append(run)
         except BaseException as e:
